@@ -76,9 +76,10 @@ check("C04", "Lean 4 theorems over get_hkl / rotation constructors regenerated f
 check("C06", "Lean 4 theorems over the B-matrix code regenerated from crystal.py (closed form + certificate-checked metric identity) + translation validation",
       "Theorems (Props/C06.lean) on the GENERATED `reciprocalB`: for every admissible cell (positive lengths, angles in (0,pi), positive volume) B is upper triangular with positive "
       "diagonal and B^T B G = 4 pi^2 1 with G the direct metric tensor (all nine entries); d(hkl) = 2 pi/|B.hkl| through the code's inv(inv b inv b^T) route; zero vector -> ZeroDivisionError; "
+      "interplanar angle = acos(h1 G* h2 / sqrt(h1 G* h1 . h2 G* h2)) with G* = B^T B/4 pi^2 the inverse of G (Props/C06Angle.lean: Gstar_G, planeAngle_crystallographic); "
       "the seven system tables and the accepted call forms (incl. inferred Hexagonal (a,a,c,120)) expand to the crystallographic cells. Executed at Float against Crystal/set_lattice for all call forms; numpy metric-tensor oracle.",
       "Lean kernel; standard axioms; translator for _set_reciprocal_cell/_get_cell_for_system/_set_cell_for_system tables; call-form dispatch and plane distance are hand models (tie H); "
-      "interplanar angle only by the oracle; acos/sqrt domain outside admissible cells not modelled.",
+      "call-form dispatch, plane distance and interplanar angle are hand models (tie H); acos/sqrt domain outside admissible cells not modelled.",
       "DESIGN.md §6 C06")
 
 check("C01", "Lean 4 theorems over a hand model of the whole hkl->angles pipeline + generated get_hkl; pipeline correspondence over all 185 modes",
